@@ -267,6 +267,14 @@ def pfOf (o : Json) : Fabio.Model.Parse.ParseFloat :=
 stays independent of all of them: `HealthyAt` on the full check list, the `buildSimple` mirror, structured
 operator commands. -/
 def pipelineH : Handler := fun inp impl => do
+  -- A record without an observation — `{"harness_error": …}` (the child did not start or died, a wait ran into its
+  -- ceiling on an overloaded machine; the harness has already retried in a fresh child), a captured panic of the
+  -- harness itself, `{"hang": …}` — says nothing about fabio: it is neither a disagreement nor a specification failure.
+  -- It is counted in its own class and is never non-trivial, so a stream that keeps producing it falls below its
+  -- non-trivial floor and the run is reported broken.
+  if (impl.getObjVal? "registry").toOption.isNone then
+    return ({ model := Json.str "no-observation", agree := true, spec := true, nontrivial := false,
+              tag := "harness-error" } : Verdict).toJson
   let cfg := field inp "cfg"
   let pfx := getStrD cfg "prefix"
   let st ← strList (field cfg "status")
